@@ -73,7 +73,6 @@ RECURSIVE SeqProd(_)
 SeqProd(ss) == IF ss = <<>> THEN {<<>>}
                ELSE {<<h>> \o t : h \in Head(ss), t \in SeqProd(Tail(ss))}
 
-Asc(X) == SetToSortSeq(X, LAMBDA a, b : a.t < b.t)
 SlotOrder(X) == LET m == TableSize(Cardinality(X))
                 IN SetToSortSeq(X, LAMBDA a, b : a.t % m < b.t % m)
 
@@ -120,8 +119,7 @@ Ser(o, top) ==
     [] o.k = "dc" -> <<-11, o.t>> \o SerSeq(o.x) \o <<-15>> \o SerSeq(o.y) \o <<-12>>
     [] o.k = "error" -> <<-99>>
 
-\* the repaired hashing: every set / frozenset written in a canonical order.  Stated as the
-\* contract the law wants; Orderings collapse, so its serialisation is trivially independent.
+\* all serialisations of a value, over every ordering; the law (C16): there is exactly one
 Sers(v) == {Ser(o, TRUE) : o \in Orderings(v)}
 SerIndependent(v) == Cardinality(Sers(v)) = 1
 
